@@ -737,7 +737,49 @@ def r1710(db, ctx):
     ctx.floor('R17.10', n, 3, 'binding functions with f32 parameters')
 
 
+def r1711(db, ctx):
+    ctx.rule('R17.11', 'the binding does no floating-point arithmetic of its own: no float +, -, *, /, %, sum / product or math function in any body of '
+                       'lightmotif-py (values the user passes reach the core as given, and results come back as the core computed them)')
+    FL = ('f32', 'f64')
+    n_fn, bad = 0, 0
+    for f in sorted(db.fns.values(), key=lambda f_: f_.path):
+        if f.crate != 'lightmotif_py' or f.promoted_of or f.raw.get('derived'):
+            continue
+        n_fn += 1
+
+        def oty(o):
+            if 'k' in o:
+                return o['k'].get('ty')
+            pl = o.get('c') or o.get('m')
+            if pl and not pl['pr']:
+                return f.local_ty(pl['l'])
+            if pl and pl['pr'] and isinstance(pl['pr'][-1], dict):
+                return pl['pr'][-1].get('ty')
+            return None
+        for blk in f.blocks:
+            for st in blk['stmts']:
+                if st['k'] == 'assign' and st['rv']['k'] == 'bin' and st['rv']['op'] in ('Add', 'Sub', 'Mul', 'Div', 'Rem'):
+                    tys = {oty(st['rv']['a']), oty(st['rv']['b'])}
+                    dty = f.local_ty(st['p']['l']) if not st['p']['pr'] else None
+                    if tys & set(FL) or dty in FL:
+                        bad += 1
+                        ctx.fail('R17.11', f, f'float {st["rv"]["op"]}', f'the binding computes a floating-point {st["rv"]["op"]} itself: a value is changed between Python and the core '
+                                 '(the same arguments give different results through the core API)', span=st.get('span'))
+        for bi, t in f.calls():
+            c = f.callee_short(t) or ''
+            full = t.get('resolved_full') or t.get('callee_full') or ''
+            if c.startswith(('core::f32::', 'core::f64::', 'std::f32::', 'std::f64::')) and c.rsplit('::', 1)[-1] not in ('is_nan', 'is_finite', 'is_infinite', 'to_bits', 'from_bits') \
+                    or re.search(r'::(sum|product)::<f(32|64)>$', full) or re.search(r'<f(32|64) as core::ops::(arith::)?\w+(Assign)?', full) \
+                    or re.search(r'Sum<&?f(32|64)>|Product<&?f(32|64)>', full):
+                bad += 1
+                ctx.fail('R17.11', f, f'float computation {c.rsplit("::", 1)[-1]}', f'the binding calls {c} on floating-point values: a value is changed between Python and the core', span=t['span'])
+    if not bad:
+        ctx.ok('R17.11', 'lightmotif_py', f'{n_fn} bodies of the binding, no floating-point arithmetic', ['positive control: seed C17-7'])
+    ctx.floor('R17.11', n_fn, 100, 'bodies of the binding inspected')
+
+
 def run(db, ctx):
+    r1711(db, ctx)
     r1710(db, ctx)
     r179(db, ctx)
     r171(db, ctx)
